@@ -288,6 +288,7 @@ func c15Run(res *vResult, cs c15Case) (nop, nafter int) {
 	s := &sessSys{ex: &seqExplorer{res: res}, res: res, in: in, m: newRefAgent(1)}
 	defer func() { res.Transitions += int64(s.steps); res.Traces++ }()
 	fp := in.p4.fp
+	lastFaulted := strings.SplitN(cs.Op, "-", 2)[0]
 	step := func(op c15Op, faulted bool) bool {
 		r := op.mk(s)
 		if r == nil {
@@ -311,10 +312,15 @@ func c15Run(res *vResult, cs c15Case) (nop, nafter int) {
 			}
 		}
 		res.outcome(fmt.Sprintf("%s-accepted=%v", r.Kind, ctx.accepted))
+		for _, w := range fp.log {
+			if w.Idx >= ctx.cmd0 && w.Err != "" {
+				lastFaulted = r.Kind // (with fault pairs the second fault may hit a follower)
+			}
+		}
 		for _, v := range c15Invariants(s) {
-			// the signature names the kind of the faulted operation: the same class of damage done by another kind of request
-			// is another finding
-			res.finding("c15:"+v.class+":"+strings.SplitN(cs.Op, "-", 2)[0], fmt.Sprintf("%s (context %s, faulted op %s, write %d fails as %s; after %s)", v.desc, cs.Ctx, cs.Op, cs.K, cs.Shape, op.name), cs)
+			// the signature names the kind of the request a write of which failed last: the same class of damage done by
+			// another kind of request is another finding
+			res.finding("c15:"+v.class+":"+lastFaulted, fmt.Sprintf("%s (context %s, faulted op %s, write %d fails as %s; after %s)", v.desc, cs.Ctx, cs.Op, cs.K, cs.Shape, op.name), cs)
 			return false
 		}
 		res.States++
